@@ -182,6 +182,49 @@ Definition forwarded_value (cfg : config) (r : request) (peer proto : str) (h : 
   | None => fwd4
   end.
 
+(* textproto.TrimString *)
+Definition is_space (c : N) : bool := (c =? 32) || (c =? 9) || (c =? 10) || (c =? 13).
+Fixpoint trim_left (s : str) : str :=
+  match s with
+  | c :: t => if is_space c then trim_left t else s
+  | [] => []
+  end.
+Definition trim (s : str) : str := rev (trim_left (rev (trim_left s))).
+
+Definition mem_key (k : str) (l : list str) : bool := existsb (beq k) l.
+
+(* unlistManagedHeaders (repair 216337c): the names addHeaders manages are removed from the
+   Connection header, so that the reverse proxy's hop-by-hop deletion cannot drop them.
+   [managed(name)]: canonical form of the trimmed token is one of the six literals or the
+   canonical form of the configured client-IP / TLS header name; "" is never managed. *)
+Definition managed_literals : list str := [K_XRI; K_XFP; K_XFPORT; K_XFH; K_XFPREFIX; K_FWD].
+
+Definition managed_key (cfg : config) (k : str) : bool :=
+  negb (sempty k) &&
+  (mem_key k managed_literals || beq k (canon_key (c_clientip cfg)) || beq k (canon_key (c_tlsheader cfg))).
+
+Definition managed_token (cfg : config) (tok : str) : bool := managed_key cfg (canon_key (trim tok)).
+
+(* the tokens of one Connection value that stay; strings.Split(v, ",") *)
+Definition kept_tokens (cfg : config) (v : str) : list str :=
+  filter (fun tok => negb (managed_token cfg tok)) (split_byte v 44).
+
+Definition unlist_managed (cfg : config) (h : hmap) : hmap :=
+  match hfind h K_CONN with
+  | None => h
+  | Some vs =>
+      if existsb (fun v => existsb (managed_token cfg) (split_byte v 44)) vs then
+        let vals := flat_map (fun v => match kept_tokens cfg v with
+                                       | [] => []
+                                       | toks => [join toks [44]]      (* tokens verbatim, joined with "," *)
+                                       end) vs in
+        match vals with
+        | [] => hdel h K_CONN                        (* h.Del("Connection") *)
+        | _ => (K_CONN, vals) :: hdel h K_CONN       (* h["Connection"] = vals *)
+        end
+      else h                                         (* nothing managed listed: untouched *)
+  end.
+
 (* ---------------- addHeaders(r, cfg, stripPath): the header map afterwards ---------------- *)
 Definition add_headers (cfg : config) (strip : str) (r : request) : outcome hmap :=
   match r_peer r with
@@ -189,7 +232,8 @@ Definition add_headers (cfg : config) (strip : str) (r : request) : outcome hmap
   | Some peer =>
       let tls := is_tls r in
       let cih := c_clientip cfg in
-      let h1 := cset (negb (sempty cih) && negb (beq cih K_XFF) && negb (beq cih K_XRI))
+      (* since 35aa11b only "X-Forwarded-For" (exact spelling) is excluded from the overwrite *)
+      let h1 := cset (negb (sempty cih) && negb (beq cih K_XFF))
                      (r_hdr r) (canon_key cih) peer in
       let h2 := cset (sempty (hget h1 K_XRI)) h1 K_XRI peer in
       let h3 := if is_ws h2 then xff_append peer h2 else h2 in
@@ -200,9 +244,10 @@ Definition add_headers (cfg : config) (strip : str) (r : request) : outcome hmap
       let h7 := cset (negb (sempty strip)) h6 K_XFPREFIX strip in
       let h8 := hset h7 K_FWD (forwarded_value cfg r peer proto h7) in
       let th := c_tlsheader cfg in
-      Ok (if sempty th then h8
-          else if tls then hset h8 (canon_key th) (c_tlsvalue cfg)
-          else hdel h8 (canon_key th))
+      let h9 := if sempty th then h8
+                else if tls then hset h8 (canon_key th) (c_tlsvalue cfg)
+                else hdel h8 (canon_key th) in
+      Ok (unlist_managed cfg h9)                     (* since 216337c *)
   end.
 
 (* ---------------- addResponseHeaders: value Set on the response, if any ---------------- *)
@@ -215,13 +260,6 @@ Definition add_response_headers (cfg : config) (tls : bool) : option str :=
   if tls && (0 <? c_sts_maxage cfg)%Z then Some (sts_value cfg) else None.
 
 (* ---------------- httputil.ReverseProxy on the managed headers (modelled) ---------------- *)
-Definition is_space (c : N) : bool := (c =? 32) || (c =? 9) || (c =? 10) || (c =? 13).
-Fixpoint trim_left (s : str) : str :=
-  match s with
-  | c :: t => if is_space c then trim_left t else s
-  | [] => []
-  end.
-Definition trim (s : str) : str := rev (trim_left (rev (trim_left s))).
 
 (* the header names removeHopByHopHeaders deletes because [Connection] lists them *)
 Definition conn_tokens (h : hmap) : list str :=
@@ -359,3 +397,50 @@ Definition serve_host_first_unrepaired (cfg : config) (t : target) (uuid : str) 
   | None => Err 0
   | Some peer => Ok (if takes_ws_path h then wire h else rp_out peer h, sts)
   end.
+
+(* ---------------- before the repairs 35aa11b (F-C08-3) and 216337c (F-C08-4) ----------------
+   addHeaders with an arbitrary overwrite guard and an arbitrary last statement; the faithful
+   [add_headers] is the instance (current guard, unlist_managed) -- see
+   Proofs.Headers.add_headers_is_instance.  The two instances below are used by the
+   refutation theorems only. *)
+Definition add_headers_with (guard : str -> bool) (fin : config -> hmap -> hmap)
+           (cfg : config) (strip : str) (r : request) : outcome hmap :=
+  match r_peer r with
+  | None => Err 0
+  | Some peer =>
+      let tls := is_tls r in
+      let cih := c_clientip cfg in
+      let h1 := cset (guard cih) (r_hdr r) (canon_key cih) peer in
+      let h2 := cset (sempty (hget h1 K_XRI)) h1 K_XRI peer in
+      let h3 := if is_ws h2 then xff_append peer h2 else h2 in
+      let proto := scheme h3 tls in
+      let h4 := cset (sempty (hget h3 K_XFP)) h3 K_XFP (xfp_of_scheme proto) in
+      let h5 := cset (sempty (hget h4 K_XFPORT)) h4 K_XFPORT (local_port (r_host r) tls) in
+      let h6 := cset (sempty (hget h5 K_XFH) && negb (sempty (r_host r))) h5 K_XFH (r_host r) in
+      let h7 := cset (negb (sempty strip)) h6 K_XFPREFIX strip in
+      let h8 := hset h7 K_FWD (forwarded_value cfg r peer proto h7) in
+      let th := c_tlsheader cfg in
+      let h9 := if sempty th then h8
+                else if tls then hset h8 (canon_key th) (c_tlsvalue cfg)
+                else hdel h8 (canon_key th) in
+      Ok (fin cfg h9)
+  end.
+
+Definition guard_current (cih : str) : bool := negb (sempty cih) && negb (beq cih K_XFF).
+(* before 35aa11b: "X-Real-Ip" (exact spelling) was excluded from the overwrite as well *)
+Definition guard_xri_unrepaired (cih : str) : bool :=
+  negb (sempty cih) && negb (beq cih K_XFF) && negb (beq cih K_XRI).
+
+Definition serve_with (ah : config -> str -> request -> outcome hmap)
+           (cfg : config) (t : target) (uuid : str) (r : request) : outcome (hmap * option str) :=
+  do h <- ah cfg (t_strip t) (req_with_reqid cfg uuid r);
+  let sts := add_response_headers cfg (is_tls r) in
+  match r_peer r with
+  | None => Err 0
+  | Some peer => Ok (if takes_ws_path h then wire h else rp_out peer h, sts)
+  end.
+
+(* the code between afbb806/7dd13e1 and 35aa11b: X-Real-Ip guard, Connection untouched *)
+Definition serve_xri_guard_unrepaired := serve_with (add_headers_with guard_xri_unrepaired (fun _ h => h)).
+(* the code between 35aa11b and 216337c: current guard, Connection untouched *)
+Definition serve_conn_unrepaired := serve_with (add_headers_with guard_current (fun _ h => h)).
